@@ -6,6 +6,11 @@ Inductive case :=
 (* one concurrent history of a real pkg/database DB (calls in invocation order); strict_go is the
    verdict of the harness's own Go implementation of the strict check *)
 | CHist (ops : list oprec) (strict_go : bool)
+(* a concurrent history recorded while CompactIndex was running in the background: the machine
+   with its compaction step (index re-opened from an older copy, wait hub unchanged) admits
+   non-linearizable histories there (third known finding), so only the verdict of the verified
+   checker is tied to the harness's own *)
+| CHistCompact (ops : list oprec) (strict_go : bool)
 (* one sequential run: every call with the response the implementation gave *)
 | CSeq (ops : list (call * result)).
 
@@ -33,5 +38,6 @@ Fixpoint seq_ok (s : state) (l : list (call * result)) : bool :=
 Definition case_ok (c : case) : bool :=
   match c with
   | CHist ops strict_go => check_relaxed ops && Bool.eqb (check ops) strict_go
+  | CHistCompact ops strict_go => Bool.eqb (check ops) strict_go
   | CSeq ops => seq_ok [] ops
   end.
